@@ -228,22 +228,20 @@ impl Bitstr {
         }
     }
 
+    // The value is read as its own bytes (iter8 re-aligns them), not as the bytes of
+    // the backing buffer: little-endian order is an order of the value's bytes, and
+    // those straddle buffer bytes when the value starts inside one.
     pub fn to_uint(&self, order: Byteorder) -> u128 {
         let mut acc: u128 = 0;
-        let mut pos = self.start();
-        let end = self.end();
-        let data_bytes = &self.data[self.bytes_range()];
         if order == BIG {
-            for byte in data_bytes {
-                let (val, n) = cut_bits(*byte, pos, end);
+            for (val, n) in self.iter8() {
                 acc = (acc << n) | (val as u128);
-                pos += n;
             }
         } else {
-            for byte in data_bytes {
-                let (val, n) = cut_bits(*byte, pos, end);
-                acc |= (val as u128) << (pos - self.start()) as u32;
-                pos += n;
+            let mut shift = 0;
+            for (val, n) in self.iter8() {
+                acc |= (val as u128) << shift;
+                shift += n;
             }
         }
         acc
